@@ -124,8 +124,14 @@ Definition enc_arp (b : bytes) (op : N) (sender target : addr) : bytes :=
   let b := cpy 32 6 (a_mac target) b in
   cpy 38 4 (a_ip target) b.
 
-(* arp.go:162 RequestRaw / arp.go:194 reply *)
+(* arp.go RequestRaw / reply.  Ethernet source = NIC MAC; the caller's sender / target MACs are ARP payload.
+   Since fix 72c6830 (checkARPArgs) a destination, sender or target MAC that is not 6 bytes (ErrInvalidMAC) and a
+   sender or target address that is not IPv4 (ErrInvalidIP) are refused. *)
+Definition is_mac (m : bytes) : bool := Nat.eqb (List.length m) 6.
+Definition arp_args_ok (dst : bytes) (sender target : addr) : bool :=
+  is_mac dst && is_mac (a_mac sender) && is_mac (a_mac target) && is4 (a_ip sender) && is4 (a_ip target).
 Definition send_arp (c : cfg) (op : N) (dst : bytes) (sender target : addr) (junk : bytes) : res (list bytes) :=
+  if negb (arp_args_ok dst sender target) then Ok [] else
   let b := enc_ether junk 2054 (host_mac c) dst in
   Ok [firstn 42 (enc_arp b op sender target)].
 
